@@ -508,6 +508,38 @@ example :
     (textEditRange Fixes.all "    a:b  1    USD".toList ⟨0, 11⟩ 3).map toN = some ⟨0, 11, 0, 11⟩ ∧
     (textEditRange Fixes.all "    ассеts:b😀  1".toList ⟨0, 14⟩ 1).map toN = some ⟨0, 4, 0, 14⟩ := by decide
 
+/-- Folding ranges: every region is a line interval `start < end` of the document, for every
+    document (directive and comment regions, computed from the text, need no hypothesis;
+    transaction regions need the transaction's two lines to exist, which
+    `TreePositionsSound` provides). -/
+theorem foldingRange_lines_ok (fx : Fixes) (doc : Txt) (j : Journal)
+    (hn : (lines doc).length < 4294967296)
+    (ht : ∀ tx ∈ j.transactions, rngSmall tx.range = true ∧ rngPos tx.range = true ∧
+      tx.range.stop.line ≤ (lines doc).length) :
+    ∀ f ∈ foldingRanges fx doc j, f.s.toNat < f.e.toNat ∧ f.e.toNat < (lines doc).length := by
+  intro f hf
+  unfold foldingRanges at hf
+  split at hf
+  · simp at hf
+  · have fromText : foldIn (lines doc).length f → f.s.toNat < f.e.toNat ∧ f.e.toNat < (lines doc).length := by
+      rintro ⟨s, e, h1, h2, h3, h4⟩
+      rw [h1, h2, UInt32.toNat_ofNat', UInt32.toNat_ofNat']
+      have : s % 4294967296 = s := Nat.mod_eq_of_lt (by omega)
+      have : e % 4294967296 = e := Nat.mod_eq_of_lt (by omega)
+      omega
+    simp only [List.mem_append] at hf
+    rcases hf with (hf | hf) | hf
+    · simp only [transactionFolds, List.mem_filterMap] at hf
+      obtain ⟨tx, htx, hfold⟩ := hf
+      obtain ⟨hs, hp, hl⟩ := ht tx htx
+      obtain ⟨_, a2, a3, _, _⟩ := txFold_spec hs hp hfold
+      simp only [rngPos, Bool.and_eq_true, decide_eq_true_eq] at hp
+      exact ⟨a2, by omega⟩
+    · have := directiveFoldsFrom_in fx (lines doc) 0 f hf
+      exact fromText (by simpa using this)
+    · have := commentFoldsFrom_in fx (lines doc) 0 none f hf
+      exact fromText (by simpa using this)
+
 /-! ## Laminar families: outline symbols and fold regions -/
 
 /-- Outline symbols of different entries never partially overlap (they are pairwise disjoint as
